@@ -188,6 +188,13 @@ static std::string show(DeqPair& p, bool& bad)
     const size_t sz = p.x->size();
     o << sz << " e=" << (p.x->empty() ? 1 : 0) << " b=";
     bool same = sz == p.s.size() && p.x->empty() == p.s.empty();
+    if (!same)
+    {
+        // do not walk a deque whose size is already wrong (operator[] would leave its blocks)
+        o << "? : !std";
+        bad = true;
+        return o.str();
+    }
     if (!p.x->empty()) { o << p.x->back(); if (same && p.x->back() != p.s.back()) same = false; } else o << "-";
     o << " :";
     for (size_t i = 0; i < sz; ++i)
@@ -415,6 +422,7 @@ int main()
             {
                 MapPair& q = *w->ms[size_t(a[1])];
                 if (&p != &q) { p.x->swap(*q.x); p.s.swap(q.s); p.m.swap(q.m); }
+                show(q, std::string(), bad);
             }
             else { std::cout << "bad\n"; continue; }
             bool b2 = false;
@@ -484,7 +492,12 @@ int main()
                 p.x.swap(t);
                 if (&p != &q) p.s = q.s;
             }
-            else if (op == "swap") { DeqPair& q = *w->ds[size_t(a[1])]; if (&p != &q) { p.x->swap(*q.x); p.s.swap(q.s); } }
+            else if (op == "swap")
+            {
+                DeqPair& q = *w->ds[size_t(a[1])];
+                if (&p != &q) { p.x->swap(*q.x); p.s.swap(q.s); }
+                show(q, bad);   // the other side is part of the observable result of swap
+            }
             else { std::cout << "bad\n"; continue; }
             out = show(p, bad);
         }
@@ -536,7 +549,7 @@ int main()
                 p.s.splice(adv(p.s.begin(), a[1]), q.s, adv(q.s.begin(), a[3]), adv(q.s.begin(), a[4]));
             }
             else if (op == "clear") { p.x->clear(); p.s.clear(); }
-            else if (op == "swap") { LstPair& q = *w->ls[size_t(a[1])]; p.x->swap(*q.x); p.s.swap(q.s); }
+            else if (op == "swap") { LstPair& q = *w->ls[size_t(a[1])]; p.x->swap(*q.x); p.s.swap(q.s); show(q, std::string(), bad); }
             else if (op == "show") {}
             else { std::cout << "bad\n"; continue; }
             bool b2 = false;
